@@ -69,6 +69,12 @@ CHECKS = {
             "For one owned random tape the real sampler is run scalar, vectorised, through ordered / lazy / out-of-order pool objects (all 3! / 4! batch permutations at each map call, <=1 deviating call quick, <=2 thorough) "
             "and through real worker pools of size 1-3; after every pipeline step the complete state digest must equal the serial run's, the final evidence must be bit-identical and `calls` must equal the instrumented evaluation counter.",
             "Trusted: purity of the fixture likelihood. Real pool internals are observed, not scheduled.", "DESIGN.md §4 C13"),
+    "C14": ("model_checking",
+            "environment-answer enumeration with a scripted clusterer (all predicted-label vectors incl. missing labels) through the real Trainer/Resampler/kernel; real-clusterer pool lattice x systematic offsets; cadence x warm-up x cap x resume-from-every-checkpoint exploration with a kernel-entry monitor",
+            "All label vectors {0..K-1}^m a K-cluster model can answer for the training pool (m in 4..6, K in 2..3) x all label vectors for 3 resampled particles are pushed through the real Trainer.run / Resampler.run / kernel entry: every label must index an existing valid mode "
+            "and that mode must equal the single-cluster fit of exactly the training points with that label; the real clusterer is run on a lattice of weighted blob pools (trimming removes whole blobs) over the systematic-offset partition; "
+            "real runs over cluster_every in {1,2,3,4,5,7} x warm-up length x kernel x normalize x cap (equal and dying modes) are monitored at every kernel entry and resumed from every checkpoint into a fresh sampler.",
+            "Trusted: C19 (a Student-t location lies in the bounding box of its data) for the pipeline-level 'same cluster' oracle. Pools and targets outside the lattice are not explored.", "DESIGN.md §4 C14"),
     "C16": ("exploration",
             "exhaustive enumeration of a structured-double lattice x all strict/periodic/reflective coordinate assignments against an exact rational fold",
             "Every value of a ~1.3k-point lattice of doubles (signed zeros, subnormals, every binade edge 2^-60..2^70 and up to 2^1023 with ulp neighbours, integers/halves/quarters with ulp neighbours, 2^53 and 2^63 edges, 1e300) "
